@@ -44,7 +44,7 @@ func main() {
 	}
 	var names []string
 	for n := range registry.Probes {
-		if (strings.HasPrefix(n, "core_") || strings.HasPrefix(n, "rnd_") || strings.HasPrefix(n, "bound")) {
+		if strings.HasPrefix(n, "core_") || strings.HasPrefix(n, "rnd_") || strings.HasPrefix(n, "bound") {
 			names = append(names, n)
 		}
 	}
